@@ -226,6 +226,7 @@ class C07(Spec):
 
 class C08(Spec):
     engine = 'E3-bfs'
+    thorough_deadline = 3300  # measured: the thorough space needs ~2 500 s on 16 idle cores
     design_ref = 'DESIGN.md 4/C08'
     technique = 'explicit-state breadth-first exploration of all operation sequences up to a depth plus all periodic histories up to a period, on the real code, states hashed on coefficient bits'
     level_text = ('all sequences over a ~40-operation alphabet (compose both sides, *=, between, +, +=, t+X, inverse, log-exp, squaring, cast, Random, setIdentity, 11 interpolations, 4 averages) up to depth 2 (quick) / 3 (thorough) '
